@@ -300,7 +300,7 @@ static void audit_quote_tables() {
 // ------------------------------------------------------------------ C14
 static vf::Counter c_cmp("memcmp-kernel-pairs"), c_cmp_eq("pairs:equal"), c_cmp_ne("pairs:different"), c_cmp_pe("placement:an-operand-ends-on-last-mapped-byte"),
     c_cmp_4065("placement:31-byte-operand-at-page-offset-4065-vs-page-start"), c_find("findmember-queries"), c_find_map("findmember-queries-with-map"),
-    c_find_hit("lookup:hit"), c_find_miss("lookup:miss"), c_cmp_meta("metamorphic(bytes outside the ranges differ)");
+    c_find_hit("lookup:hit"), c_find_miss("lookup:miss"), c_cmp_meta("metamorphic(bytes outside the ranges differ)"), c_find_ptr("lookup:through-JsonPointer-and-JsonPointerView"), c_find_null("lookup:empty-name-through-a-view-without-buffer");
 
 static int sgn(int x) { return (x > 0) - (x < 0); }
 
@@ -465,6 +465,33 @@ static void lookup_case(size_t klen, vf::Rng& r, Alloc& alloc, bool with_map, bo
       if (want >= 0 ? !(viaidx.IsUint64() && viaidx.GetUint64() == (uint64_t)want) : !viaidx.IsNull())
         vf::violation("operator[]:" + cls, "operator[] returned the wrong value");
     }
+  }
+  // the same members through a JSON pointer whose token is a std::string (any bytes, NUL included) or a view
+  for (size_t qi = 0; qi < uniq.size(); qi++) {
+    const std::string& q = uniq[qi];
+    long want = qi < present ? (long)qi : -1;
+    c_find_ptr.add();
+    vf::eval();
+    JsonPointer jp;
+    jp.push_back(JsonPointerNode(q));
+    JsonPointerView jv;
+    jv.push_back(JsonPointerView::JsonPointerNodeType(StringView(q.data(), q.size())));
+    const NodeT* a = static_cast<const NodeT&>(obj).AtPointer(jp);
+    const NodeT* b = static_cast<const NodeT&>(obj).AtPointer(jv);
+    const NodeT* w = want >= 0 ? &((obj.MemberBegin() + want)->value) : nullptr;
+    if (a != w) vf::violation(std::string("atpointer-string-token:") + (with_map ? "map" : "linear"), "key length " + std::to_string(q.size()) + " (model member " + std::to_string(want) + ")");
+    if (b != w) vf::violation(std::string("atpointer-view-token:") + (with_map ? "map" : "linear"), "key length " + std::to_string(q.size()) + " (model member " + std::to_string(want) + ")");
+  }
+  // the empty name looked up through a view without a buffer
+  if (klen == 0) {
+    c_find_null.add();
+    long want0 = -1;
+    for (size_t qi = 0; qi < present; qi++) if (uniq[qi].empty()) want0 = (long)qi;
+    StringView nul;
+    auto it = static_cast<const NodeT&>(obj).FindMember(nul);
+    long got = it == obj.MemberEnd() ? -1 : (long)(it - obj.MemberBegin());
+    bool has = obj.HasMember(nul);
+    if (got != want0 || has != (want0 >= 0)) vf::violation(std::string("findmember-null-view:") + (with_map ? "map" : "linear"), "FindMember(StringView{}) returned " + std::to_string(got) + ", model says " + std::to_string(want0));
   }
   vf::distinct(vf::hash_combine(vf::hash_str(k0), (with_map ? 2 : 0) + (const_keys ? 1 : 0)));
 }
